@@ -6,7 +6,8 @@ limit_sub_bbox, the MetaGrid functions the walker uses; exact arithmetic on Grid
 Tie (correspondence, evaluated inside Coq with vm_compute):
   * `can_skip`     SeedProgress.can_skip on generated / boundary progress tuples vs Seed.can_skip
   * `limit`        seed.util.limit_sub_bbox vs Seed.limit_sub_bbox
-  * `geo_walk`     the real TileWalker (real MetaGrid, real coverage objects, real SeedProgress, real ProgressLog and
+  * `geo_walk`     (compared on the complete lists handed to worker_pool.process: Seed.observe / handed_tiles)
+                   the real TileWalker (real MetaGrid, real coverage objects, real SeedProgress, real ProgressLog and
                    ProgressStore, a recording worker pool) on generated tasks of the *exact stream* (grids with integer
                    parameters: float arithmetic is exact, traces must agree event for event) vs Seed.geo_walk:
                    uninterrupted runs, runs interrupted at an event index (prefix) and runs resumed from what the real
@@ -20,6 +21,8 @@ Oracle (independent of the model, on what the implementation did):
   * every processed meta tile is an aligned, valid tile of a selected level and intersects the coverage;
   * every meta tile of a selected level whose chain of ancestors' meta tiles intersects the coverage and whose centre
     lies more than 1/10 pixel inside the traversed rectangles is processed;
+  * every process call hands over exactly the members of one meta tile that need work (all with an empty cache, the
+    uncached ones with a partly filled cache, [main tile] with refresh_all), in tile_list order; no call when none does;
   * the walker does not raise (finding C11-sliver, repaired: rectangles thinner than 2/10 pixel are generated on purpose);
     the progress file holds exactly the reported identifier.
 """
@@ -33,6 +36,7 @@ from common import zlit, blit, llit, olit, VERIF
 from gridlib import GridCase, frac
 
 ID = 'C11'
+GEN = []          # no generated Coq files: translator problems of other properties' specs are not C11's
 TECHNIQUE = ('Coq proof (induction over arbitrary walk trees / lexicographic progress order) + correspondence check of the '
              'executable model against the real TileWalker, SeedProgress and ProgressStore, including interrupted and resumed runs')
 LEVEL_TEXT = ('Theorems over the Gallina model of TileWalker._walk / SeedProgress for every walk tree, every old progress '
@@ -45,7 +49,7 @@ LEVEL_TEXT = ('Theorems over the Gallina model of TileWalker._walk / SeedProgres
 LEVEL_NOTE = ('Trusted: Coq kernel, hand-written model Seed.v / Grid.v, the correspondence harness. Not verified: IEEE rounding '
               '(exact stream is bit exact; realistic stream is tied at the level of the recorded walk tree), shapely predicates '
               'and PROJ (the coverage predicate is a function parameter of the model; answers are recorded), worker processes, '
-              'work_on_metatiles=False (rescale_tiles), is_cached/is_stale filtering (nothing cached / refresh_all).')
+              'work_on_metatiles=False (rescale_tiles), --skip-uncached (is_stale) mode; the cache content is fixed during a task (the recording pool stores nothing).')
 DESIGN_REF = 'DESIGN.md section 5, C11'
 RULE = ('case = (task: grid, meta size, levels, coverage, skip_geoms; run: uninterrupted / crash index / resumed from persisted '
         'identifier); non-trivial = task with at least two traversed levels and a coverage that selects a proper subset, or an '
@@ -57,7 +61,7 @@ TRUSTED = ['model Seed.v hand-written from mapproxy/seed/seeder.py, seed/util.py
            'file is written atomically (write_atomic) by the report that persists it']
 ASSUMPTIONS = ['coverage predicate monotone (CONTAINS for a rectangle implies not NONE for every rectangle overlapping it)',
                'levels sorted, unique, valid (LevelsList.for_grid guarantees it)',
-               'nothing cached / refresh_all, work_on_metatiles']
+               'work_on_metatiles; handle_all or uncached mode with a cache content that does not change during the history']
 EXPLANATION = ('resume_covers proved for every tree, crash index and persisted report; real walker interrupted and resumed through '
                'the real ProgressStore, traces compared with the model')
 
@@ -704,6 +708,7 @@ class TaskCheck(object):
         ctx.count('levels=%s' % ('all' if len(spec['levels']) == grid.levels else 'subset'))
         ctx.count('skip_geoms=%d' % spec.get('skip', 0))
         ctx.count('meta=%dx%d' % tuple(spec['meta']))
+        ctx.count('mode=' + ('refresh_all' if spec.get('refresh_all', True) else 'uncached, cache %s' % ('partly filled' if spec.get('cached') else 'empty')))
         nproc = len(U.processed())
         nontrivial = len(spec['levels']) > 0 and max(spec['levels']) >= 1 and nproc > 1
         ctx.case(('U', json.dumps(spec, sort_keys=True)), nontrivial,
@@ -965,6 +970,7 @@ class TaskCheck(object):
         if not handle_all and rule:
             collect(U.tree.root)
         dropterm = llit(sorted(drop), coord_lit)
+        self.ctx.count('meta_tiles_without_call_all_members_cached', len(drop))
 
         def main_of(call):
             try:
